@@ -41,8 +41,16 @@ deriving DecidableEq, Repr, Inhabited
 inductive Mode | persistent | cleanup | revokable
 deriving DecidableEq, Repr, Inhabited
 
-/-- The (setup, cleanup) function-pointer pair a system command is run with. -/
-inductive Kind | plain | sysEv | entReact | dspReact | entEv | bcEv
+/-- The (setup, cleanup) function-pointer pair a system command is run with. The arguments are *ghost*: the metadata
+    the command prepared when it was applied. The Rust command carries only the two function pointers; `setupK` and
+    `cleanupK` ignore the arguments, which exist so that specifications can say "its own event". -/
+inductive Kind
+  | plain
+  | sysEv (d : Nat)
+  | entReact (src : Nat) (rt : RType)
+  | dspReact (src : Nat)
+  | entEv (target d : Nat)
+  | bcEv (d : Nat)
 deriving DecidableEq, Repr, Inhabited
 
 /-- The seven type-wide registration tables of `ReactCache`. -/
@@ -174,7 +182,10 @@ inductive Ev
   | body (sys run : Nat) (obs : Obs)
   | bodyEnd (sys : Nat)
   | ret (v : Option Nat)
+  | send (pid : Nat)
   | dropPayload (pid : Nat)
+  | expect (sys : Nat) (obs : Obs)      -- ghost: what the readers should return for the command that caused this run
+  | misclaim (sys : Nat)                -- ghost: a tracker `start` claimed metadata prepared by another command
   | canary (sys : Nat)
   | applied (sys : Nat)
   | abortNoEntity (sys : Nat)
